@@ -318,6 +318,16 @@ func (adapterComp) Gen(rng *rand.Rand, tier string) [][]string {
 		}
 		hs = append(hs, h)
 	}
+	// declared sizes whose SUM leaves the range of the memory tier's byte counter (an `int64`): oracle-only histories (huge=1 —
+	// the model counts in unbounded naturals and is not compared here; in the unchanged code the counter wraps and the byte bound
+	// stops being enforced, which is outside what C15/C17 state): whatever the tier does with such entries, none may be LOST
+	for _, sz := range [][2]string{{"9223372036854775807", "1"}, {"4611686018427387904", "4611686018427387904"}, {"9223372036854775807", "9223372036854775807"}, {"1", "9223372036854775807"}} {
+		for _, db := range []string{"mem", "leveldb"} {
+			hs = append(hs, []string{fmt.Sprintf("begin adapter cap=10 bytes=1000 db=%s huge=1", db),
+				"put 21 21ee " + sz[0], "has 21", "put 22 22ee " + sz[1], "has 21", "has 22", "get 22", "get 21",
+				"put 23 23ee 10", "get 21", "get 22", "get 23", "put 21 21ee 5", "get 21", "has 22"})
+		}
+	}
 	if tier == "thorough" {
 		// exhaustive: all histories of length 6 over 3 keys x {put small, put large, hoa, get} + rm of one key, memory tier of 2 items / 12 bytes
 		var alphabet []string
